@@ -49,32 +49,32 @@ Print Assumptions C13_hash_graph_is_translated.
    of them re-opens this property even if no sampled case shows a difference.  Rewritten by tools/pin_shapes.py on a tree on which every check passes. *)
 From Connectome Require GlueCacheGen GlueFactoryGen.
 Theorem C13_mirrored_functions_are_the_pinned_ones :
-  GlueCacheGen.shape_class_CacheToStorage = "bb02462476ebf5a3" /\
-  GlueCacheGen.shape_class_CacheToRam = "671471faaea3be32" /\
-  GlueCacheGen.shape_class_CacheToDisk = "ab13d5028a9842ed" /\
-  GlueCacheGen.shape_priv_normalize_disk_arguments = "8b4510643237a667" /\
-  GlueCacheGen.shape_priv_resolve_serializer = "37e132734e002621" /\
-  GlueCacheGen.shape_class_DynamicConnectLayer = "7ece76ebf623a344" /\
-  GlueCacheGen.shape_class_MemoryCache = "cfe8167a538c6fe4" /\
-  GlueCacheGen.shape_class_DiskCache = "71fb3386aa709b95" /\
-  GlueFactoryGen.shape_class_GraphFactory = "81497759c0671ad7" /\
-  GlueFactoryGen.shape_class_SourceFactory = "1808b21b3bce3951" /\
-  GlueFactoryGen.shape_class_TransformFactory = "c44de91624ae4321" /\
-  GlueFactoryGen.shape_add_from_mixins = "75970a13392501ac" /\
-  GlueFactoryGen.shape_is_detectable = "01389bb1efb83cb2" /\
-  GlueFactoryGen.shape_items_to_container = "f7b238bfe3e856c6" /\
-  GlueFactoryGen.shape_class_FunctionBase = "2a1e9fd23a29f19d" /\
-  GlueFactoryGen.shape_class_Function = "727356a49c35f2ce" /\
-  GlueFactoryGen.shape_class_FunctionWrapper = "20f303f31715c14d" /\
-  GlueFactoryGen.shape_class_Inverse = "d803d7d513cd3b06" /\
-  GlueFactoryGen.shape_class_Positional = "ff7f4bccfea673aa" /\
-  GlueFactoryGen.shape_class_Impure = "f33a1c51c28660a4" /\
-  GlueFactoryGen.shape_class_APIMeta = "d04e35766e894328" /\
-  GlueFactoryGen.shape_class_HashByValue = "16222fab9891d910" /\
-  GlueFactoryGen.shape_class_CombinedHashByValue = "a5203dcb1319f438" /\
-  GlueFactoryGen.shape_hash_by_value = "8a4ba5e0fdeb3b7c" /\
-  GlueFactoryGen.shape_class_NodeStorage = "6d3e8d03e5bc0ef6" /\
-  GlueFactoryGen.shape_replace_annotation = "1793c6c05b9f2740".
+  GlueCacheGen.shape_class_CacheToStorage = "bb02462476ebf5a3"%string /\
+  GlueCacheGen.shape_class_CacheToRam = "671471faaea3be32"%string /\
+  GlueCacheGen.shape_class_CacheToDisk = "ab13d5028a9842ed"%string /\
+  GlueCacheGen.shape_priv_normalize_disk_arguments = "8b4510643237a667"%string /\
+  GlueCacheGen.shape_priv_resolve_serializer = "37e132734e002621"%string /\
+  GlueCacheGen.shape_class_DynamicConnectLayer = "7ece76ebf623a344"%string /\
+  GlueCacheGen.shape_class_MemoryCache = "cfe8167a538c6fe4"%string /\
+  GlueCacheGen.shape_class_DiskCache = "71fb3386aa709b95"%string /\
+  GlueFactoryGen.shape_class_GraphFactory = "81497759c0671ad7"%string /\
+  GlueFactoryGen.shape_class_SourceFactory = "1808b21b3bce3951"%string /\
+  GlueFactoryGen.shape_class_TransformFactory = "c44de91624ae4321"%string /\
+  GlueFactoryGen.shape_add_from_mixins = "75970a13392501ac"%string /\
+  GlueFactoryGen.shape_is_detectable = "01389bb1efb83cb2"%string /\
+  GlueFactoryGen.shape_items_to_container = "f7b238bfe3e856c6"%string /\
+  GlueFactoryGen.shape_class_FunctionBase = "2a1e9fd23a29f19d"%string /\
+  GlueFactoryGen.shape_class_Function = "727356a49c35f2ce"%string /\
+  GlueFactoryGen.shape_class_FunctionWrapper = "20f303f31715c14d"%string /\
+  GlueFactoryGen.shape_class_Inverse = "d803d7d513cd3b06"%string /\
+  GlueFactoryGen.shape_class_Positional = "ff7f4bccfea673aa"%string /\
+  GlueFactoryGen.shape_class_Impure = "f33a1c51c28660a4"%string /\
+  GlueFactoryGen.shape_class_APIMeta = "d04e35766e894328"%string /\
+  GlueFactoryGen.shape_class_HashByValue = "16222fab9891d910"%string /\
+  GlueFactoryGen.shape_class_CombinedHashByValue = "a5203dcb1319f438"%string /\
+  GlueFactoryGen.shape_hash_by_value = "8a4ba5e0fdeb3b7c"%string /\
+  GlueFactoryGen.shape_class_NodeStorage = "6d3e8d03e5bc0ef6"%string /\
+  GlueFactoryGen.shape_replace_annotation = "1793c6c05b9f2740"%string.
 Proof. repeat split; reflexivity. Qed.
 Print Assumptions C13_mirrored_functions_are_the_pinned_ones.
 (* END PINNED FINGERPRINTS *)
